@@ -7,6 +7,11 @@
  *        dmode: u decompress_usingDict, d DDict+decompress_usingDDict, l DCtx_loadDictionary+decompressStream, r refDDict+decompressDCtx, p refPrefix, m multi-DDict table with nOther other DDicts
  *        -> ok fid=<dictID in frame> n=<size> in=<xxh64 of input> wrong=<errclass when decoded with the same dictionary under another ID|-> frame=<hex>
  *         | cerr <class> | derr <class> | MISMATCH ...
+ *   rts <the nine rt fields> <shape> <firstchunk>   same round trip on a SHAPED input (<size> is ignored: the shape gives it).  shape = segments joined by '/':
+ *        H<n> (no bytes) the dictionary's first n bytes are its header, not content | N<len> incompressible bytes | Z<len> one repeated byte | T<len> letters | G<len> the rt mix | C<len>:<lo>-<hi>x<cnt>[:<lo>-<hi>x<cnt>...] incompressible
+ *        bytes holding cnt copies (600..3000 bytes each) per group of what lies lo..hi bytes back in (dictionary ++ input so far), clamped to what exists.
+ *        firstchunk > 0: in the streamed mode l the first call consumes exactly that many bytes and flushes (a tiny first block).
+ *   mkdict <contentSize> <seed> <dictID> <level>  -> hex of a ZDICT_finalizeDictionary dictionary (content = <contentSize> letters / bytes) | err <name>
  */
 #include "zvh_common.h"
 #define ZDICT_STATIC_LINKING_ONLY
@@ -25,6 +30,31 @@ static void gen_input(unsigned char* p, size_t n, const unsigned char* d, size_t
         else if (k < 90) { for (j = 0; j < len; j++) p[i + j] = (unsigned char)("etaoin shrdlu,.\n"[rnd() % 17]); }
         else { for (j = 0; j < len; j++) p[i + j] = (unsigned char)rnd(); }
         i += len; }
+}
+/* shaped input (rts): see the header comment.  Returns the total size (0 on a malformed shape); fills p when it is not NULL. */
+static size_t gen_shaped(unsigned char* p, const char* shape, const unsigned char* d, size_t dn, unsigned long long seed) {
+    size_t i = 0, hdr = 0; const char* s = shape; rs = seed ^ 0x5DEECE66DULL;
+    while (*s) { char k = *s++; char* e; size_t len = (size_t)strtoull(s, &e, 10), j; if (e == s) return 0; s = e;
+        if (k == 'H') { hdr = len < dn ? len : dn; len = 0; }   /* the first hdr bytes of the dictionary are not content: copies never reach into them */
+        else if (k == 'C') { /* groups */
+            size_t lo[8], hi[8], cnt[8], ng = 0, total = 0, g, slot, q = 0;
+            while (*s == ':' && ng < 8) { s++; lo[ng] = (size_t)strtoull(s, &e, 10); if (*e != '-') return 0; s = e + 1; hi[ng] = (size_t)strtoull(s, &e, 10); if (*e != 'x') return 0; s = e + 1; cnt[ng] = (size_t)strtoull(s, &e, 10); s = e; total += cnt[ng]; ng++; }
+            if (p) { for (j = 0; j < len; j++) p[i + j] = (unsigned char)rnd();
+                slot = total ? len / total : 0;
+                for (g = 0; total && slot > 700; g = (g + 1) % ng) { size_t cl, at, dist, avail, b; if (!cnt[g]) { size_t z = 0; for (b = 0; b < ng; b++) z += cnt[b]; if (!z) break; continue; } cnt[g]--;
+                    cl = 600 + rnd() % 2400; if (cl > slot - 64) cl = slot - 64; at = i + q * slot + 32 + rnd() % (slot - cl - 32); q++;
+                    dist = lo[g] + (hi[g] > lo[g] ? rnd() % (hi[g] - lo[g] + 1) : 0); avail = at + dn - hdr; if (dist > avail) dist = avail - (avail > 8192 ? rnd() % 4096 : 0); if (dist < cl) dist = cl;   /* source ends before the copy starts: no overlap */
+                    if (dist > avail) continue;
+                    for (b = 0; b < cl; b++) p[at + b] = (at + b >= dist) ? p[at + b - dist] : d[dn - (dist - at - b)]; } }
+        } else if (p) {
+            if (k == 'N') for (j = 0; j < len; j++) p[i + j] = (unsigned char)rnd();
+            else if (k == 'Z') { unsigned char c = (unsigned char)rnd(); for (j = 0; j < len; j++) p[i + j] = c; }
+            else if (k == 'T') for (j = 0; j < len; j++) p[i + j] = (unsigned char)("etaoin shrdlu,.\n"[rnd() % 17]);
+            else if (k == 'G') { unsigned long long keep = rs; gen_input(p + i, len, d, dn, rs); rs = keep + len; }
+            else return 0;
+        } else if (!strchr("NZTGH", k)) return 0;
+        i += len; if (*s == '/') s++; else if (*s) return 0; }
+    return i;
 }
 static size_t apply(ZSTD_CCtx* c, const char* spec) { char buf[512]; char* sv = NULL; char* kv; size_t r = 0; if (!strcmp(spec, "-")) return 0; strncpy(buf, spec, sizeof buf - 1); buf[sizeof buf - 1] = 0;
     for (kv = strtok_r(buf, ",", &sv); kv && !ZSTD_isError(r); kv = strtok_r(NULL, ",", &sv)) { int id, val; if (sscanf(kv, "%d=%d", &id, &val) == 2) r = ZSTD_CCtx_setParameter(c, (ZSTD_cParameter)id, val); } return r; }
@@ -47,13 +77,16 @@ int main(void) {
             printf("C=%s D=%s idDict=%u idC=%u idD=%u loadC=%s loadD=%s\n", cd ? "ok" : "null", dd ? "ok" : "null", ZSTD_getDictID_fromDict(d, dn), cd ? ZSTD_getDictID_fromCDict(cd) : 0, dd ? ZSTD_getDictID_fromDDict(dd) : 0,
                    zv_errclass(rc), zv_errclass(rd));
             ZSTD_freeCDict(cd); ZSTD_freeDDict(dd); ZSTD_freeCCtx(c); ZSTD_freeDCtx(dc); free(d);
-        } else if (!strcmp(op, "rt")) {
+        } else if (!strcmp(op, "rt") || !strcmp(op, "rts")) {
+            int const shaped = (op[2] == 's');
             size_t dn; unsigned char* d = zv_unhex(strtok(NULL, " "), &dn); char cm = strtok(NULL, " ")[0]; int attach = atoi(strtok(NULL, " ")), dds = atoi(strtok(NULL, " ")); char* spec = strtok(NULL, " "); char dm = strtok(NULL, " ")[0];
             unsigned long long seed = strtoull(strtok(NULL, " "), NULL, 10); size_t n = (size_t)strtoull(strtok(NULL, " "), NULL, 10); int nOther = atoi(strtok(NULL, " "));
+            const char* shape = shaped ? strtok(NULL, " ") : NULL; size_t fchunk = shaped ? (size_t)strtoull(strtok(NULL, " "), NULL, 10) : 0;
+            if (shaped) { n = gen_shaped(NULL, shape, d, dn, seed); if (!n || n > (64u << 20)) { printf("bad-shape\n"); free(d); fflush(stdout); continue; } }
             unsigned char* src = (unsigned char*)malloc(n ? n : 1); size_t cap = ZSTD_compressBound(n) + 64; unsigned char* dst = (unsigned char*)malloc(cap); unsigned char* back = (unsigned char*)malloc(n ? n : 1);
             ZSTD_CCtx* c = ZSTD_createCCtx(); ZSTD_DCtx* dc = ZSTD_createDCtx(); ZSTD_CDict* cd = NULL; ZSTD_DDict* dd = NULL; size_t r = 0, cs = 0; int level = 3; ZSTD_DDict* others[64]; int no = 0, i;
             {   const char* lp = strstr(spec, "100="); if (lp == spec || (lp && lp[-1] == ',')) level = atoi(lp + 4); }
-            gen_input(src, n, d, dn, seed);
+            if (shaped) gen_shaped(src, shape, d, dn, seed); else gen_input(src, n, d, dn, seed);
             /* ---- compression ---- */
             r = apply(c, spec);
             if (!ZSTD_isError(r) && attach) r = ZSTD_CCtx_setParameter(c, ZSTD_c_forceAttachDict, attach);
@@ -68,14 +101,14 @@ int main(void) {
                             r = cd ? ZSTD_CCtx_refCDict(c, cd) : (size_t)-ZSTD_error_dictionary_corrupted; if (!ZSTD_isError(r)) r = ZSTD_compress2(c, dst, cap, src, n); break; }
                 case 'l': { r = ZSTD_CCtx_loadDictionary(c, d, dn);
                             if (!ZSTD_isError(r)) { size_t pos = 0, out = 0; int guard = 0; r = 1;
-                                while (guard++ < 1000000) { ZSTD_inBuffer ib; ZSTD_outBuffer ob; size_t isz = 1 + rnd() % 40000; ZSTD_EndDirective dir; if (isz > n - pos) isz = n - pos; dir = pos + isz == n ? ZSTD_e_end : (rnd() % 4 ? ZSTD_e_continue : ZSTD_e_flush);
+                                while (guard++ < 1000000) { ZSTD_inBuffer ib; ZSTD_outBuffer ob; size_t isz = (fchunk && pos == 0) ? fchunk : 1 + rnd() % 40000; ZSTD_EndDirective dir; if (isz > n - pos) isz = n - pos; dir = pos + isz == n ? ZSTD_e_end : ((fchunk && pos == 0) ? ZSTD_e_flush : (rnd() % 4 ? ZSTD_e_continue : ZSTD_e_flush));
                                     ib.src = src + pos; ib.size = isz; ib.pos = 0; ob.dst = dst + out; ob.size = cap - out; ob.pos = 0; r = ZSTD_compressStream2(c, &ob, &ib, dir); if (ZSTD_isError(r)) break; pos += ib.pos; out += ob.pos; if (dir == ZSTD_e_end && r == 0) { r = out; break; } } }
                             break; }
                 case 'R': { ZSTD_CCtx_params* pp = ZSTD_createCCtxParams(); ZSTD_CCtxParams_init(pp, level);
                             cd = ZSTD_createCDict_advanced2(d, dn, ZSTD_dlm_byCopy, ZSTD_dct_rawContent, pp, ZSTD_defaultCMem); ZSTD_freeCCtxParams(pp);
                             r = cd ? ZSTD_CCtx_refCDict(c, cd) : (size_t)-ZSTD_error_dictionary_corrupted; if (!ZSTD_isError(r)) r = ZSTD_compress2(c, dst, cap, src, n); break; }
                 case 'b': { size_t pos = 0, out = 0; int first = 1; cd = ZSTD_createCDict(d, dn, level); r = cd ? ZSTD_compressBegin_usingCDict(c, cd) : (size_t)-ZSTD_error_dictionary_corrupted;
-                            while (!ZSTD_isError(r)) { size_t seg = first ? ((rnd() & 1) ? 1 + rnd() % 7 : 1 + rnd() % 3000) : 1 + rnd() % 60000; unsigned char* piece; int last; size_t bmax = ZSTD_getBlockSize(c); first = 0;
+                            while (!ZSTD_isError(r)) { size_t seg = first ? (fchunk ? fchunk : (rnd() & 1) ? 1 + rnd() % 7 : 1 + rnd() % 3000) : 1 + rnd() % 60000; unsigned char* piece; int last; size_t bmax = ZSTD_getBlockSize(c); first = 0;
                                 if (seg > n - pos) seg = n - pos; last = (pos + seg == n);
                                 piece = (unsigned char*)malloc(seg + 1); memcpy(piece, src + pos, seg);        /* its own allocation: not adjacent to the previous segment */
                                 r = last ? ZSTD_compressEnd(c, dst + out, cap - out, piece, seg) : ZSTD_compressContinue(c, dst + out, cap - out, piece, seg); (void)bmax;
@@ -112,10 +145,21 @@ int main(void) {
                 const char* wrong = "-"; unsigned fid = ZSTD_getDictID_fromFrame(dst, cs);
                 if (dn >= 8 && ZSTD_getDictID_fromDict(d, dn) != 0) { unsigned char* d2 = (unsigned char*)malloc(dn); ZSTD_DCtx* d3 = ZSTD_createDCtx(); size_t r2; memcpy(d2, d, dn); d2[4] ^= 0x5A;
                     r2 = ZSTD_decompress_usingDict(d3, back, n, dst, cs, d2, dn); wrong = ZSTD_isError(r2) ? zv_errclass(r2) : "ACCEPTED"; ZSTD_freeDCtx(d3); free(d2); }
-                printf("ok fid=%u n=%zu in=%016llx wrong=%s frame=", fid, n, (unsigned long long)XXH64(src, n, 0), wrong); zv_puthex(dst, cs); printf("\n"); }
+                printf("ok fid=%u n=%zu in=%016llx wrong=%s frame=", fid, n, (unsigned long long)XXH64(src, n, 0), wrong); if (shaped && cs > 200000) putchar('-'); else zv_puthex(dst, cs); printf("\n"); }
         done:
             for (i = 0; i < no; i++) ZSTD_freeDDict(others[i]);
             ZSTD_freeCDict(cd); ZSTD_freeDDict(dd); ZSTD_freeCCtx(c); ZSTD_freeDCtx(dc); free(d); free(src); free(dst); free(back);
+        } else if (!strcmp(op, "mkdict")) {
+            size_t cn = (size_t)strtoull(strtok(NULL, " "), NULL, 10); unsigned long long seed = strtoull(strtok(NULL, " "), NULL, 10); unsigned id = (unsigned)strtoul(strtok(NULL, " "), NULL, 10); int lvl = atoi(strtok(NULL, " "));
+            enum { NS = 40, SS = 3000 }; unsigned char* content = (unsigned char*)malloc(cn + 1); unsigned char* samples = (unsigned char*)malloc(NS * SS); unsigned char* db = (unsigned char*)malloc(cn + 8192); size_t sizes[NS]; size_t i, ds; ZDICT_params_t zp; int letters;
+            rs = seed; letters = (int)(rnd() & 1);
+            for (i = 0; i < cn; i++) content[i] = letters ? (unsigned char)("abcdefghijklmnopqrstuvwxyz ,.\n"[rnd() % 30]) : (unsigned char)rnd();
+            for (i = 0; i < NS; i++) { unsigned char* sp = samples + i * SS; size_t pos = 0; sizes[i] = SS;
+                while (pos < SS) { size_t len = 8 + rnd() % 40, from = cn > 64 ? rnd() % (cn - 64) : 0, k; for (k = 0; k < 24 && pos < SS; k++) sp[pos++] = (unsigned char)("etaoin shrdlu"[rnd() % 13]); for (k = 0; k < len && pos < SS && from + k < cn; k++) sp[pos++] = content[from + k]; } }
+            memset(&zp, 0, sizeof zp); zp.compressionLevel = lvl; zp.dictID = id;
+            ds = ZDICT_finalizeDictionary(db, cn + 8192, content, cn, samples, sizes, NS, zp);
+            if (ZDICT_isError(ds)) printf("err %s\n", ZDICT_getErrorName(ds)); else { zv_puthex(db, ds); printf("\n"); }
+            free(content); free(samples); free(db);
         } else printf("bad-op\n");
         fflush(stdout);
     }
